@@ -18,6 +18,7 @@ class TermInterp(Interp):
         self.concrete_loops = True
         self.name_intervals = False
         self.fail = []
+        self.lost = []          # values given up on without failing the evaluation: they are no terms, so never equal to one
         self.ws = WS(self.ts)
         self.word_mode = False          # pack four byte leaves into a 32-bit word leaf (hash functions)
         # memcpy between a scalar and a byte array is a reinterpretation (the portable spelling of *(u32_t *)p)
@@ -333,7 +334,17 @@ class TermInterp(Interp):
     def twv(self, i):
         return C(self.ws.kval(i)) if self.ws.is_k(i) else ('tw', i)
 
+    LOST = ('opaque', 'lost')
+
+    def lose(self, node, what):
+        self.lost.append((what, nloc(node) if isinstance(node, dict) else str(node)))
+        return self.LOST
+
     def arith(self, s, op, a, b, t, n=None):
+        if self.lost and (a == self.LOST or b == self.LOST or ((a == TOP or b == TOP) and (is_term(a) or is_term(b) or a == b))):
+            return self.LOST
+        if self.lost and (a == TOP or b == TOP):
+            return TOP
         if not (is_term(a) or is_term(b)):
             return Interp.arith(self, s, op, a, b, t, n)
         wordish = a[0] == 'tw' or b[0] == 'tw'
@@ -383,8 +394,10 @@ class TermInterp(Interp):
             r = ts.map2(ia, ib, lambda x, y: fn(x, y) & mask if not (t or {}).get('sg') else fn(x, y))
             if r is not None:
                 return self.tbv(r)
-            if op in ('|', '+') and a[0] == 'tb' and b[0] == 'tb':
-                return self.bad(n, 'byte terms over different leaves combined with %s' % op)
+            if op in ('+', '-') and a[0] == 'tb' and b[0] == 'tb':
+                # carry-style arithmetic over two unknown bytes: outside the byte-term language; the value is given up (it is
+                # no term from here on, so whatever depends on it is undecided) but the evaluation goes on
+                return self.lose(n, 'byte terms over different leaves combined with %s' % op)
             return self.bad(n, 'byte terms over different leaves combined with %s' % op)
         va, vb = self.to_bv(a, nb), self.to_bv(b, nb)
         if op in ('<<', '>>') and b[0] == 'c':
